@@ -220,7 +220,13 @@ func main() {
 		}
 		// property: an exact verdict must mean the schemas are the same list of counts
 		if v1 == schema.CompatibilityExact && !eq(c, s) {
-			propFail("C14 compatible-totals client=%s server=%s are different schemas but Compatible says exact: no descriptor is sent and the server decodes with its own counts", cstr(c), cstr(s))
+			// the recorded finding is the class "same number of structs, same total of field counts";
+			// an exact verdict for schemas with different numbers of structs is another violation
+			sig := "compatible-totals"
+			if len(c) != len(s) {
+				sig = "compatible-exact-different-struct-count"
+			}
+			propFail("C14 %s client=%s server=%s are different schemas but Compatible says exact: no descriptor is sent and the server decodes with its own counts", sig, cstr(c), cstr(s))
 		}
 		if i < nConn {
 			md := uint64([]int{0, 1, 4096, 1 << 20}[r.Intn(4)])
